@@ -390,6 +390,34 @@ Definition target (s : st) (o : op) : option Z :=
   | _ => None
   end.
 
+(* "an object added by a registered provider is returned ... with the content, timestamp, location
+   and validity it was added with until it is deleted or its validity lapses":
+   zone = false is the clause as the property states it (FALSE of the code, see Properties/C12.v),
+   zone = true adds the hypothesis that the object is outside the collector's deletion zone. *)
+Definition added_returned_stmt (zone : bool) : Prop :=
+  forall c t0 ops1 r ops2,
+  let s1 := state_after c t0 ops1 in
+  let i := next_id s1 in
+  mem (r_app r) (provs s1) = true ->
+  undisturbed zone c i r s1 (Add r :: ops2) ->
+  let s3 := state_after c t0 (ops1 ++ Add r :: ops2) in
+  let ct := content_after c i s1 (Add r :: ops2) (r_typ r, r_tok r) in
+  snd (step c s1 (Add r)) = [i] /\
+  lookup i (store s3) = Some (set_content r (fst ct) (snd ct)) /\
+  forall aid prio types,
+    mem aid (conss s3) = true -> forallb valid_type types = true -> prio_ok prio = true ->
+    mem (fst ct) types = true ->
+    exists recs, snd (step c s3 (Request aid prio types)) = 0 :: flat_map flat_rec recs /\
+                 In (set_content r (fst ct) (snd ct)) recs.
+
+(* "requests of unregistered providers or consumers are refused without effect":
+   only_gated = false is the clause for every request kind (FALSE of the code for update/delete),
+   only_gated = true restricts it to add and request. *)
+Definition unregistered_refused_stmt (only_gated : bool) : Prop :=
+  forall c t0 ops o,
+  let s := state_after c t0 ops in
+  (only_gated = true -> gated o = true) -> by_unregistered s o = true -> fst (step c s o) = s.
+
 (* ============================================================================ *)
 (* Part 3: driver protocol                                                        *)
 (* ============================================================================ *)
